@@ -225,6 +225,25 @@ CHECKS = {
             {"run": "^TestC15Labels$", "n": {"quick": 4000, "thorough": 30000}},
         ],
     },
+    "C16": {
+        "level": "exploration",
+        "technique": "enumeration of all operation pairs plus random generated concurrent client programs, executed free-running under the Go race detector (log-growth oracle)",
+        "design_ref": "DESIGN.md section 6 C16",
+        "text": "Every unordered pair of public operations of every subject (3 backends x 3 eviction strategies, the Failover "
+                "variants, InvalidationIndex, Invalidator) is executed as a two-goroutine program under -race; random programs of "
+                "2-6 goroutines follow. The race detector writes its report synchronously, so growth of the GORACE log while a "
+                "program runs attributes the race to that program; the signature is the normalised pair of racing library "
+                "functions. A runtime fault (concurrent map access) kills the process and is reported with its output.",
+        "note": "Only executed accesses are judged (dynamic detection); no claim about schedules that were not produced. "
+                "Controlled scheduling is deliberately not used here: hand-offs would add happens-before edges and hide races.",
+        "assumptions": ["Go race detector soundness for the executed accesses"],
+        "jobs": [
+            {"run": "^TestC16Pairs$", "race": True, "n": {"quick": 1, "thorough": 1}, "env": {"VERIF_C16_INSTANCES": 3},
+             "shards": {"quick": 1, "thorough": 1}},
+            {"run": "^TestC16Random$", "race": True, "n": {"quick": 500, "thorough": 2500},
+             "shards": {"quick": 2, "thorough": 16}},
+        ],
+    },
     "C17": {
         "level": "exploration",
         "technique": "property-based testing of generated call timelines on a fake clock with real goroutine contention; exact acceptance specification",
